@@ -180,7 +180,7 @@ func nativeReplay(h *Harness, cfg *Config, entry *EntrySpec, cexPath string, kee
 				nm := fmt.Sprintf("vxa%d", i)
 				if sig.Variadic() && i == sig.Params().Len()-1 {
 					ts = "..." + types.TypeString(pt.(*types.Slice).Elem(), qual)
-					ptypes = append(ptypes, types.TypeString(pt, qual))
+					ptypes = append(ptypes, ts)
 					call = append(call, nm)
 				} else {
 					ptypes = append(ptypes, ts)
@@ -208,9 +208,12 @@ func nativeReplay(h *Harness, cfg *Config, entry *EntrySpec, cexPath string, kee
 			} else {
 				origCall = orig + "(" + joinVariadic(origCallArgs, sig.Variadic()) + ")"
 			}
-			fmt.Fprintf(&extra, "func %s%s(%s)%s {\n\tif %s != nil {\n\t\t%s%s(%s)\n\t\treturn\n\t}\n\t%s%s\n}\n",
+			// the hook is not re-entered from inside itself (a stub may call the
+			// real callee), exactly like the interpreter's insideStub rule
+			fmt.Fprintf(&extra, "var %s_in bool\n", e.hookVar)
+			fmt.Fprintf(&extra, "func %s%s(%s)%s {\n\tif %s != nil && !%s_in {\n\t\t%s_in = true\n\t\tdefer func() { %s_in = false }()\n\t\t%s%s(%s)\n\t\treturn\n\t}\n\t%s%s\n}\n",
 				recvDecl, e.decl.Name.Name, strings.Join(pnames, ", "), res,
-				e.hookVar, ret, e.hookVar, strings.Join(call, ", "), ret, origCall)
+				e.hookVar, e.hookVar, e.hookVar, e.hookVar, ret, e.hookVar, joinVariadic(call, sig.Variadic()), ret, origCall)
 		}
 		// `return f(); return` is invalid when there are results: fix up
 		txt := strings.ReplaceAll(extra.String(), ")\n\t\treturn\n\t}\n\treturn ", ")\n\t}\n\treturn ")
@@ -260,8 +263,8 @@ func TestVxNativeReplay(t *testing.T) {
 			for _, n := range vx.Notes {
 				t.Logf("VXNOTE: %%s", n)
 			}
-			if _, ok := r.(vx.AssumeFailed); ok {
-				t.Logf("VXASSUMEFAILED")
+			if af, ok := r.(vx.AssumeFailed); ok {
+				t.Logf("VXASSUMEFAILED at %%s", af.Where)
 				t.Skip("an assumption does not hold natively for this model")
 			}
 			t.Fatalf("VXPANIC: %%v", r)
